@@ -178,7 +178,9 @@ class Purity:
                 elif isinstance(t, ast.Attribute):
                     # assignment to x.a changes x (recorded at path x.a so that `self.a = ..` names the attribute)
                     r = _root_name(t.value)
-                    if r:
+                    if r and self.__dict__.get('_skip_rebinds', False) and r[0] == f.self_name and not r[1]:
+                        pass   # self.a = v: the object that a named is left as it was
+                    elif r:
                         out.add((r[0], r[1] + (t.attr,)))
                         rebinds.add((r[0], r[1] + (t.attr,)))
                 elif isinstance(t, ast.Name) and isinstance(n, ast.AugAssign):
@@ -240,30 +242,14 @@ class Purity:
 
     def _mutations_in_place(self, m: FuncDef):
         """mutations of m that change an object in place - not `x.a = value`, which only makes x.a name another
-        object (the object that was stored there before is left as it was)"""
-        out = set()
-        for n in walk_own(m.node):
-            if isinstance(n, ast.Call) and isinstance(n.func, ast.Attribute) and n.func.attr in MUTATORS:
-                r = _root_name(n.func.value)
-                if r:
-                    out.add(r)
-            targets = []
-            if isinstance(n, ast.Assign):
-                targets = n.targets
-            elif isinstance(n, (ast.AugAssign, ast.AnnAssign)):
-                targets = [n.target]
-            elif isinstance(n, ast.Delete):
-                targets = n.targets
-            for t in targets:
-                if isinstance(t, ast.Subscript):
-                    r = _root_name(t.value)
-                    if r:
-                        out.add(r)
-                elif isinstance(t, ast.Attribute):
-                    r = _root_name(t.value)
-                    if r and r[1]:
-                        out.add(r)   # x.a.b = v changes the object x.a
-        return out
+        object (the object that was stored there before is left as it was); includes what is handed to a callee that
+        changes its parameter"""
+        old = self.__dict__.get('_skip_rebinds', False)
+        self._skip_rebinds = True
+        try:
+            return self._mutations(m)
+        finally:
+            self._skip_rebinds = old
 
     def attrs_mutated_by_methods(self, k: ClassDef) -> Set[str]:
         if k in self._attr_mut:
